@@ -40,12 +40,12 @@ PROP = dict(
     ],
     jobs=dict(
         quick=[
-            job("contractcourt", "^TestVerifC12Decision$", ["TestVerifC12Decision"], 2500, shards=4),
-            job("contractcourt", "^TestVerifC12Resolution$", ["TestVerifC12Resolution"], 2500, shards=4),
+            job("contractcourt", "^TestVerifC12Decision$", ["TestVerifC12Decision"], 6000, shards=4),
+            job("contractcourt", "^TestVerifC12Resolution$", ["TestVerifC12Resolution"], 6000, shards=4),
             job("contractcourt", "^TestVerifC12Repro", ["TestVerifC12ReproDustAfterBroadcastLocal",
                 "TestVerifC12ReproDustAfterBroadcastRemote", "TestVerifC12ReproDustBitMapOrder"], 1, shards=1, v=True),
             # real channel states from the channel simulator, real chain watcher / close summaries (notes/C12.md)
-            job("contractcourt", "^TestVerifC12Sim$", ["TestVerifC12Sim"], 35, shards=6, timeout=600,
+            job("contractcourt", "^TestVerifC12Sim$", ["TestVerifC12Sim"], 60, shards=6, timeout=600,
                 env=dict(VERIF_STEPS=30, VERIF_C12SIM_EVERY=3)),
         ],
         thorough=[
